@@ -244,6 +244,10 @@ typedef struct EbDecHandle {
     EbBool                start_thread_process;
     /* svt_av1_dec_init has succeeded and svt_av1_dec_deinit has not been called since */
     EbBool                session_initialised;
+#ifdef SVT_AV1_VERIF
+    /* per temporal unit: blocks that use each block-level coding tool (see EbDecParseBlock.c:parse_block) */
+    volatile long long verif_tools[12];
+#endif
     EbHandle              thread_semaphore;
     struct DecThreadCtxt *thread_ctxt_pa;
 
